@@ -216,13 +216,40 @@ impl QueryEngine {
             .with_file_extension(".parquet")
             .with_collect_stat(true);
 
+        // The table's schema is the union of the selected chunks' schemas. Inferring it from
+        // the table config would look at the first chunk only: label sets differ between
+        // series, and a statement naming a column the first chunk happens to lack would
+        // fail although other selected chunks have it (rows of chunks without the column
+        // read as NULL).
+        let state = self.ctx.state();
+        let mut schemas = Vec::with_capacity(table_urls.len());
+        for url in &table_urls {
+            let schema = listing_options
+                .infer_schema(&state, url)
+                .await
+                .map_err(|e| {
+                    Error::Internal(format!("Failed to infer schema for metrics table: {}", e))
+                })?;
+            schemas.push(schema.as_ref().clone());
+        }
+        let merged = arrow_schema::Schema::try_merge(schemas).map_err(|e| {
+            Error::Internal(format!(
+                "Chunks selected for one query have incompatible schemas: {}",
+                e
+            ))
+        })?;
+        // Columns this node has seen in earlier selections stay known (as NULL) when the
+        // chunks selected now do not carry them.
+        let merged = if self.is_bound_to_data() {
+            let seen = self.metrics_table_schema().await;
+            arrow_schema::Schema::try_merge([merged.clone(), seen.as_ref().clone()])
+                .unwrap_or(merged)
+        } else {
+            merged
+        };
         let config = ListingTableConfig::new_with_multi_paths(table_urls)
             .with_listing_options(listing_options)
-            .infer_schema(&self.ctx.state())
-            .await
-            .map_err(|e| {
-                Error::Internal(format!("Failed to infer schema for metrics table: {}", e))
-            })?;
+            .with_schema(Arc::new(merged));
 
         let table = ListingTable::try_new(config)?;
 
